@@ -3,6 +3,7 @@
 package vfrun
 
 import (
+	"bytes"
 	"encoding/json"
 	"flag"
 	"fmt"
@@ -289,7 +290,11 @@ func Run[C any](t *testing.T, p Prop[C], n int) {
 	t.Helper()
 	replayFn := func(raw json.RawMessage) *Failure {
 		var c C
-		if err := json.Unmarshal(raw, &c); err != nil {
+		// numbers in untyped positions (operation variables) stay json.Number, as every transport
+		// of gqlgen decodes them: a float64 is something no request ever delivers
+		dec := json.NewDecoder(bytes.NewReader(raw))
+		dec.UseNumber()
+		if err := dec.Decode(&c); err != nil {
 			return Failf("harness.bad-replay", "cannot decode case: %v", err)
 		}
 		return p.Check(c)
